@@ -368,6 +368,7 @@ func init() {
 				if _, err := regexp.Compile(pat); err != nil {
 					return tuple{false, fr.i.mkError(err.Error())}
 				}
+				fr.i.x.patFacts(pat, s)
 				return tuple{mkBool("(" + internPat(pat) + " " + s.t + ")"), iface{}}
 			}
 			ok, err := regexp.MatchString(pat, a[1].(string))
